@@ -139,6 +139,26 @@ func (ld *Layerdefs) ProbeAllLayerstate(inuse fs.InUseLayerMap) error {
 		}
 		name := layer.Name
 		buildroot := ld.buildPath(layer)
+		layer.Mounts = ld.mounts.GetMountAndSubmounts(buildroot)
+
+		users := inuse[name]
+		if users != nil {
+			mountdirs := []string{ld.cfg.LayerBuildRoot, ld.cfg.LayerOvfsWorkdir,
+				ld.cfg.LayerOvfsUpperdir}
+			for _, user := range users {
+				for _, mpath := range mountdirs {
+					if fs.SameDirectoryOrDescendant(user.File, mpath) {
+						layer.MountBusy = true
+					} else {
+						layer.NonMountBusy = true
+					}
+					if user.UsedAs == fs.UsedAs_root {
+						layer.Chroot = true
+					}
+				}
+			}
+		}
+
 		if !fs.IsDir(buildroot) {
 			layer.State = Layerstate_incomplete
 			continue
@@ -161,24 +181,6 @@ func (ld *Layerdefs) ProbeAllLayerstate(inuse fs.InUseLayerMap) error {
 			}
 			layer.State = Layerstate_incomplete
 			continue
-		}
-
-		users := inuse[name]
-		if users != nil {
-			mountdirs := []string{ld.cfg.LayerBuildRoot, ld.cfg.LayerOvfsWorkdir,
-				ld.cfg.LayerOvfsUpperdir}
-			for _, user := range users {
-				for _, mpath := range mountdirs {
-					if fs.SameDirectoryOrDescendant(user.File, mpath) {
-						layer.MountBusy = true
-					} else {
-						layer.NonMountBusy = true
-					}
-					if user.UsedAs == fs.UsedAs_root {
-						layer.Chroot = true
-					}
-				}
-			}
 		}
 
 		layer.State = Layerstate_complete
